@@ -53,40 +53,44 @@ def chunk_of(layname, prefer_quick=True):
 #   shards : processes per bin per tier
 
 
-def S(body, chunks=LAYOUT, n=None, shards=None, args=None, args_tier=None, gen=None):
+def S(body, chunks=LAYOUT, n=None, shards=None, args=None, args_tier=None, gen=None, gen_args=None):
     return dict(body=body, chunks=chunks, n=n or {"quick": 1000, "thorough": 8000},
-                shards=shards or {"quick": 4, "thorough": 2}, args=args or [], args_tier=args_tier or {}, gen=gen)
+                shards=shards or {"quick": 4, "thorough": 2}, args=args or [], args_tier=args_tier or {}, gen=gen, gen_args=gen_args or {})
 
 
-ST_ARITH = S("arith", n={"quick": 1500, "thorough": 12000})
+ST_ARITH = S("arith", n={"quick": 1500, "thorough": 12000}, args_tier={"thorough": ["--exhaustive", "1"]})
 ST_ROUND = S("round", n={"quick": 6000, "thorough": 40000}, args_tier={"thorough": ["--exhaustive", "1"]})
 ST_REM = S("rem", n={"quick": 4000, "thorough": 30000}, args_tier={"thorough": ["--exhaustive", "1"]})
 ST_CONVI = S("convi", n={"quick": 250, "thorough": 1500})
 ST_XTYPE = S("xtype", chunks=XPAIR, n={"quick": 600, "thorough": 3000})
-ST_FLT = S("flt", n={"quick": 3000, "thorough": 20000})
+ST_FLT = S("flt", n={"quick": 3000, "thorough": 20000}, args_tier={"thorough": ["--exhaustive", "1"]})
+ST_X8_CONV = S("xtype", chunks={"quick": [], "thorough": ["x8%d" % i for i in range(4)]}, n={"quick": 0, "thorough": 0},
+               shards={"quick": 1, "thorough": 4}, args_tier={"thorough": ["--exhaustive", "1"]})
+ST_X8_CMP = S("xtype", chunks={"quick": [], "thorough": ["x8%d" % i for i in range(4)]}, n={"quick": 0, "thorough": 0},
+              shards={"quick": 1, "thorough": 4}, args_tier={"thorough": ["--exhaustive", "2"]})
 ST_FROMTO = S("fromto", chunks={"quick": [None], "thorough": [None]}, n={"quick": 40, "thorough": 600}, shards={"quick": 1, "thorough": 1})
 ST_CODEC = S("codec", n={"quick": 1500, "thorough": 8000})
-ST_FMT = S("fmt", n={"quick": 500, "thorough": 4000}, args_tier={"thorough": ["--exhaustive", "1"]})
+ST_FMT = S("fmt", n={"quick": 500, "thorough": 4000}, args_tier={"thorough": ["--exhaustive", "2"]})
 ST_WRAP = S("wrap", n={"quick": 400, "thorough": 3000})
-ST_PARSE = S("parse", n={"quick": 500, "thorough": 2500}, gen=os.path.join(ROOT, "gen", "c08.py"))
+ST_PARSE = S("parse", n={"quick": 500, "thorough": 2500}, gen=os.path.join(ROOT, "gen", "c08.py"), gen_args={"thorough": ["--exhaustive", "1"]})
 ST_PARSE_SMALL = S("parse", n={"quick": 150, "thorough": 800}, gen=os.path.join(ROOT, "gen", "c08.py"))
 
 GEN_RULE = ("operands come from the seeded in-driver generator: boundary constants (0, +-ulp, +-1, MIN, MAX, 2^k+-1), log-uniform "
             "magnitudes, sparse/dense/limb-structured patterns and result-targeted partners; ")
 
 PLANS = {
-    "C01": dict(module="arith", streams=[ST_ARITH], profiles=["release", "checked"],
+    "C01": dict(exhaustive={"thorough": True}, module="arith", streams=[ST_ARITH], profiles=["release", "checked"],
                 rule="one event = one (layout, op, operand pair) with all API forms of the op; " + GEN_RULE +
                      "partners are solved so the exact product/quotient lands within 2 ulp of a range bound or of zero; a coverage "
                      "cell is (layout, op, class(a), class(b), fits/over+/over-/div0); distinct_nontrivial counts distinct cells whose "
                      "operands are neither 0 nor 1.0 (an undercount of distinct inputs)",
                 need_ops=["mul", "div", "mul_r", "div_r"]),
-    "C02": dict(module="arith", streams=[ST_ARITH], profiles=["release", "checked"],
+    "C02": dict(exhaustive={"thorough": True}, module="arith", streams=[ST_ARITH], profiles=["release", "checked"],
                 rule="one event = one (layout, op, operands) with the checked/saturating/wrapping/overflowing/plain forms of the op; "
                      + GEN_RULE + "a coverage cell is (layout, op, class(a), class(b), fits/over+/over-/div0); distinct_nontrivial "
                      "counts distinct cells whose operands are neither 0 nor 1.0",
                 need_ops=["neg", "abs", "add", "sub", "mul", "div", "mul_int", "div_int"]),
-    "C03": dict(module="cmpm", streams=[ST_CONVI, ST_XTYPE, ST_FLT], profiles=["release", "checked"],
+    "C03": dict(exhaustive={"thorough": True}, module="cmpm", streams=[ST_CONVI, ST_XTYPE, ST_FLT, ST_X8_CMP], profiles=["release", "checked"],
                 quick_profiles=["release"],
                 rule="one event = one (lhs layout, lhs value, rhs type, rhs value) with == != < <= > >= partial_cmp in both operand "
                      "orders (same-type events add cmp/max/min and the Hash byte stream); rhs is one of the 12 primitive integer "
@@ -95,7 +99,7 @@ PLANS = {
                      "only in bits the lhs cannot hold, or lying in (MAX, 2*MAX] / [2*MIN, MIN) of the lhs; a coverage cell is "
                      "(type pair, class(lhs), ordering outcome, rhs in-range/overflowing/lost-bits class); non-trivial = no operand 0",
                 need_ops=["cmp:i8", "cmp:u128", "cmpff", "cmpsame", "cmpf32", "cmpf64"], nlay={"quick": 106 + 600, "thorough": 506 + 4000}),
-    "C04": dict(module="conv", streams=[ST_CONVI, ST_XTYPE, ST_FROMTO], profiles=["release", "checked"], probes=True,
+    "C04": dict(exhaustive={"thorough": True}, module="conv", streams=[ST_CONVI, ST_XTYPE, ST_FROMTO, ST_X8_CONV], profiles=["release", "checked"], probes=True,
                 rule="one event = one source value converted through from_num/to_num and their checked_/saturating_/wrapping_/"
                      "overflowing_ forms in both spellings: integer<->fixed for all 12 primitive integer types on every layout, "
                      "bool->fixed, and fixed->fixed over 100 family pairs x 6 (quick) / 40 (thorough) Frac combinations; sources sit at "
@@ -106,7 +110,7 @@ PLANS = {
                      "compiles is executed and its events are judged like any other; "
                      "a coverage cell is (type pair, class(source), fits/over+/over- [+lost bits]); non-trivial = source != 0",
                 need_ops=["fi:i8", "fi:u128", "fb", "ff", "fx:from", "fx:lossy", "fxf"], nlay={"quick": 106 + 599 + 389, "thorough": 506 + 3900 + 389}),
-    "C05": dict(module="fltm", streams=[ST_FLT], profiles=["release", "checked"],
+    "C05": dict(exhaustive={"thorough": True}, module="fltm", streams=[ST_FLT], profiles=["release", "checked"],
                 rule="one event = one (layout, fixed value, float bit pattern) with from_num and its four overflow forms, to_num::<f32|f64> "
                      "and its forms, LossyFrom; floats are exact grid points, exact ties between grid points and the adjacent floats, range "
                      "ends +- half an ulp, +-0, smallest/largest subnormals, MIN_POSITIVE, the top binade up to MAX, +-inf, quiet/signalling "
@@ -114,7 +118,7 @@ PLANS = {
                      "24th/53rd significant bit; a coverage cell is (layout, float width, float class, fits/over/tie/exact, class of the "
                      "float result, rounded/exact); non-trivial = neither side zero",
                 need_ops=["fl32", "fl64"]),
-    "C08": dict(module="parsem", streams=[ST_PARSE], profiles=["release", "checked"],
+    "C08": dict(exhaustive={"thorough": True}, module="parsem", streams=[ST_PARSE], profiles=["release", "checked"],
                 rule="one event = one (layout, radix, literal) parsed by from_str* and its saturating_/wrapping_/overflowing_ forms; literals "
                      "are written by gen/c08.py from EXACT radix expansions of grid points, rounding ties (2R+1)/2^(f+1), quarter points and "
                      "range ends +- half an ulp of the target layout: the expansion itself, proper prefixes, the expansion with 0..0d appended "
@@ -198,6 +202,19 @@ for _p, (_r, _ops, _nl, _qp, _tp) in TP.items():
                      need_ops=_ops, nlay=_nl, sweeps=_sw)
 
 
+EXHAUSTIVE_NOTE = {
+    "C01": "every operand pair of all 18 eight-bit layouts for mul/div (and their by-reference spellings on a subset)",
+    "C02": "every operand (pair) of all 18 eight-bit layouts for neg/abs/add/sub/mul/div/mul_int/div_int",
+    "C03": "every value pair of all 324 ordered pairs of eight-bit layouts (21 M comparisons in each operand order)",
+    "C04": "every source value of all 324 ordered pairs of eight-bit layouts",
+    "C05": "every value of the 8- and 16-bit layouts converted to f32 and f64",
+    "C06": "every value of all 8- and 16-bit layouts",
+    "C07": "every operand pair of all 18 eight-bit layouts, fixed and integer divisors",
+    "C08": "every decimal literal [-]I.F with 1-4 fraction digits and I in {0, largest integer, one beyond} for the 18 eight-bit layouts",
+    "C09": "every value of the 18 eight-bit layouts under the full grid 6 traits x 10 flag sets x 6 widths x 10 precisions",
+}
+
+
 def _floor(plan, tier, nlay_expected):
     def floor(M):
         if M["evaluations"] == 0:
@@ -236,7 +253,7 @@ def plan(prop, tier, seed):
                             gen = None
                             if st.get("gen"):
                                 gen = [PY, st["gen"], "--seed", str(seed), "--n", str(st["n"][tier]),
-                                       "--chunk", b.split("_", 1)[1], "--shard", "%d/%d" % (s, shards)]
+                                       "--chunk", b.split("_", 1)[1], "--shard", "%d/%d" % (s, shards)] + st.get("gen_args", {}).get(tier, [])
                             js.append(dict(kind="pipe", body=st["body"], gen=gen,
                                            drv=[bin_path(prof, b), "--seed", str(seed), "--n", str(st["n"][tier]),
                                                 "--shard", "%d/%d" % (s, shards)] + st["args"] + st["args_tier"].get(tier, []),
@@ -266,6 +283,8 @@ def plan(prop, tier, seed):
         out = dict(P)
         out.update(build={p: set(bins) for p in profiles}, jobs=jobs, floor=_floor(P, tier, nlay), assumptions=ASSUME,
                    body=P["streams"][0]["body"])
+        if tier == "thorough" and prop in EXHAUSTIVE_NOTE:
+            out["rule"] = P["rule"] + "; EXHAUSTIVE scope of the thorough tier (what exhaustive=true refers to): " + EXHAUSTIVE_NOTE[prop]
         if P.get("sweeps") and tier == "thorough":
             out["build"]["fast"] = {"sweep"}
             out["exhaustive"] = {"thorough": True}
